@@ -182,7 +182,7 @@ func runSensitivity(prop string) map[string]any {
 			if kind == "seeded" && !strings.HasPrefix(en.Name(), prop+"-") {
 				continue
 			}
-			if kind == "benign" && !strings.HasPrefix(en.Name(), prop+"-") && !strings.HasPrefix(en.Name(), "R2-"+prop+"-") && !strings.HasPrefix(en.Name(), "R3-"+prop+"-") {
+			if kind == "benign" && !strings.HasPrefix(en.Name(), prop+"-") && !strings.HasPrefix(en.Name(), "R2-"+prop+"-") && !strings.HasPrefix(en.Name(), "R3-"+prop+"-") && !benignMetaProperty(filepath.Join(root, kind, en.Name()), prop) {
 				continue
 			}
 			patch := filepath.Join(root, kind, en.Name(), "patch.diff")
@@ -288,4 +288,21 @@ func selftest(ids []string) int {
 		return 1
 	}
 	return 0
+}
+
+
+// benignMetaProperty: the refactoring's meta.json names this property as the one its area belongs to
+// (catalogue rounds that are organised by code area rather than by property).
+func benignMetaProperty(dir, prop string) bool {
+	b, err := os.ReadFile(filepath.Join(dir, "meta.json"))
+	if err != nil {
+		return false
+	}
+	var m struct {
+		Property string `json:"property"`
+	}
+	if json.Unmarshal(b, &m) != nil {
+		return false
+	}
+	return m.Property == prop
 }
